@@ -1,5 +1,6 @@
 import Props.SkeletonRef
 import Lemmas.SkelEvents
+import Lemmas.SkelExec
 import Lemmas.EngineEvents
 /-! SkeletonEvents — the regenerated skeleton, INTERPRETED and scheduled at its yield points, refines the `Events`
 machine (C16, and the preview clauses of C14).
@@ -189,5 +190,95 @@ example : ∃ j p, AdmittedE (fun _ => false) (fun _ => true) j p ∧ p.length >
     tagged ((paths "CreateTransaction" createTransaction)[27]!),
     ⟨⟨("CreateTransaction", createTransaction), by simp [entryPoints], rfl, _, by decide +kernel, rfl⟩, rfl, rfl, rfl⟩, by decide +kernel⟩
 
-end SkeletonEvents
+/-! … and the hypothesis of the `…_every_schedule` theorems is met by runs that go all the way: a schedule of four
+requests on generated paths of `CreateTransaction`, computed by the executable scheduler `Sys.execY`
+(`Lemmas/SkelExec.lean`, sound for `RunY`).  Request 1 creates a transaction under key "k" and parks at `"wait"`;
+preview 2 runs meanwhile and is answered with the id that is next (1); the store persists the batch; 1 publishes and
+answers (0); request 3 replays 1 through the key (publishes the found entry, answers 0); preview 4, same key, is
+answered 0 and publishes nothing. -/
+section Witness
+open Sys
 
+def wPaths : List Path := paths "CreateTransaction" createTransaction
+
+def wJob (a : Nat) (dry : Bool) (ik : String) : Job :=
+  { a := a, ep := "CreateTransaction", req := { kind := .create, dry := dry, ik := ik, ref := "", target := 0, force := false, over := 0 },
+    postings := [⟨"world", "bob", 5, "USD"⟩], target := "", metaKey := "", r := ["world"], w := ["bob"], bals := [] }
+
+/-- the first successful path of `CreateTransaction` that decided the named conditions this way and commits (or not) -/
+def wPick (ik ref dry : Bool) (commits : Bool) : Path :=
+  (wPaths.find? (fun p => p.contains (.fin true "") && chose p "ik≠''" ik && (ik || chose p "ref≠''" ref) && chose p "dry" dry &&
+    (p.any isAppend == commits) && (commits || ik == p.any isReadIkOk) && (!commits || (chose p "ref≠''" ref && chose p "tx≠nil" true)) &&
+    (ik || commits || chose p "tx≠nil" true))).getD []
+
+def wp1 := tagged (wPick true false false true)      -- key not found, commit, wait, publish the own log
+def wp2 := tagged (wPick false false true false)     -- no key, preview: peek, park at "wait", answer the peeked id
+def wp3 := tagged (wPick true false false false)     -- key found, real: publish the found log
+def wp4 := tagged (wPick true false true false)      -- key found, preview
+
+/-- request 1 up to its wait for persistence, preview 2 entirely, the batch, the rest of 1, then 3, then 4 -/
+def wSched : List Move :=
+  [.arrive (wJob 1 false "k") wp1, .arrive (wJob 2 true "") wp2] ++ List.replicate (wp1.findIdx isWaitPersisted) (.item 1)
+  ++ List.replicate wp2.length (.item 2) ++ [.gate 1 true] ++ List.replicate (wp1.length - wp1.findIdx isWaitPersisted) (.item 1)
+  ++ [.arrive (wJob 3 false "k") wp3] ++ List.replicate wp3.length (.item 3)
+  ++ [.arrive (wJob 4 true "k") wp4] ++ List.replicate wp4.length (.item 4)
+
+def wDry (a : Nat) : Bool := a == 2 || a == 4
+def wTx (_ : Nat) : Bool := true
+
+/-- what one sees of a trace: commits, batches, publications, successful answers -/
+def wObs : Ev → Option (String × Nat × Option Nat)
+  | .committed a l _ => some ("committed", a, l.txid)
+  | .gate n _ => some ("gate", n, none)
+  | .publish a (.committed t _) => some ("publish", a, some t)
+  | .finish a true _ t => some ("answer", a, t)
+  | _ => none
+
+theorem witness_picks : [wPick true false false true, wPick false false true false, wPick true false false false,
+    wPick true false true false].all (fun p => wPaths.contains p && p.length > 8) = true := by decide +kernel
+
+theorem witness_admitted (a : Nat) (dry : Bool) (ik : String) (p0 : Path) (h : p0 ∈ wPaths) (hd : dry = wDry a) :
+    AdmittedE wDry wTx (wJob a dry ik) (tagged p0) :=
+  ⟨⟨("CreateTransaction", createTransaction), by simp [entryPoints], rfl, p0, h, rfl⟩, hd, rfl, rfl⟩
+
+theorem witness_sched_runs : (execY ⟨init [], none⟩ wSched).map (fun r => (r.2.filterMap wObs, r.1.st.procs.all (fun p => p.todo.isEmpty))) =
+    some ([("committed", 1, some 0), ("answer", 2, some 1), ("gate", 1, none), ("publish", 1, some 0), ("answer", 1, some 0),
+           ("publish", 3, some 0), ("answer", 3, some 0), ("answer", 4, some 0)], true) := by decide +kernel
+
+/-- **a run of the interpreted skeleton in which everything happens**, as a `RunY` of admitted requests from the empty
+store: all four requests reach the end of their paths -/
+theorem witness_run_exists : ∃ tr y, RunY (AdmittedE wDry wTx) ⟨init [], none⟩ tr y ∧ StoreOK [] ∧
+    tr.filterMap wObs = [("committed", 1, some 0), ("answer", 2, some 1), ("gate", 1, none), ("publish", 1, some 0),
+      ("answer", 1, some 0), ("publish", 3, some 0), ("answer", 3, some 0), ("answer", 4, some 0)] ∧
+    y.st.procs.all (fun p => p.todo.isEmpty) = true := by
+  have h := witness_sched_runs
+  cases he : execY ⟨init [], none⟩ wSched with
+  | none => simp [he] at h
+  | some r =>
+    obtain ⟨y, tr⟩ := r
+    simp only [he, Option.map_some, Option.some.injEq, Prod.mk.injEq] at h
+    refine ⟨tr, y, ?_, ⟨⟨trivial, trivial⟩, fun l hl => by cases hl⟩, h.1, h.2⟩
+    apply execY_sound _ _ _ _ _ _ he
+    have ha : arrivals wSched = [(wJob 1 false "k", wp1), (wJob 2 true "", wp2), (wJob 3 false "k", wp3), (wJob 4 true "k", wp4)] := rfl
+    rw [ha]
+    intro jp hjp
+    simp only [List.mem_cons, List.not_mem_nil, or_false] at hjp
+    have hp := witness_picks
+    simp only [List.all_cons, List.all_nil, Bool.and_true, Bool.and_eq_true, List.contains_iff_mem, decide_eq_true_eq] at hp
+    rcases hjp with rfl | rfl | rfl | rfl
+    · exact witness_admitted 1 false "k" _ hp.1.1 rfl
+    · exact witness_admitted 2 true "" _ hp.2.1.1 rfl
+    · exact witness_admitted 3 false "k" _ hp.2.2.1.1 rfl
+    · exact witness_admitted 4 true "k" _ hp.2.2.2.1 rfl
+
+/-- … so the refinement theorem applies to it: `Events` accepts its trace, with one persisted entry, two publications
+of it and the two real answers recorded -/
+example : ∃ tr y s, RunY (AdmittedE wDry wTx) ⟨init [], none⟩ tr y ∧
+    runOn (Events.step wDry wTx) (Events.init []) tr = .ok s ∧ s.durable = y.st.sh.store := by
+  obtain ⟨tr, y, h, hs, _⟩ := witness_run_exists
+  obtain ⟨s, h1, h2, _⟩ := events_accepts_every_schedule wDry wTx [] tr y h hs
+  exact ⟨tr, y, s, h, h1, h2⟩
+
+end Witness
+
+end SkeletonEvents
